@@ -893,12 +893,12 @@ Definition children_entries (L : lschema) (e : lentry) : option (list lentry) :=
   | _ => None
   end.
 
-(* ---- the two repairs of the code (fix: commits), selectable so that the unrepaired behaviour stays
-   available as the record of the defects:
+(* ---- the two repairs of the code (fix: commits 55e2b09 and 5844fee, both in /repo), selectable so that the
+   behaviour before them stays available as the record of the repaired defects:
      fx_skip_undeclared : SchemaValidator._check_tag_entry_attributes runs validators only on attributes that
-                          are declared for the section (C14-F1)
+                          are declared for the section (C14-F1, 55e2b09)
      fx_own_library     : verify_tag_id / tag_is_deprecated_check read the entry's OWN inLibrary value, not
-                          the inherited comma-joined one (C14-F2) *)
+                          the inherited comma-joined one (C14-F2, 5844fee) *)
 Record fixes : Set := mkFx { fx_skip_undeclared : bool; fx_own_library : bool }.
 Definition fixed_all : fixes := mkFx true true.
 Definition fixed_none : fixes := mkFx false false.
